@@ -1,5 +1,8 @@
 import GfsProps.C13
 import GfsProps.C01
 import GfsProps.C02
+import GfsProps.C03
 import GfsProps.C08
+import GfsProps.C09
+import GfsProps.C10
 import GfsProps.C11
